@@ -103,6 +103,7 @@ class Registry:
         self.hooks = {}
         self.with_hooks = []
         self.allow_unknown_externs = True
+        self.context = None         # name of the oracle set in force (set by the driver from the verified contract)
         try:
             from .grid import GridHook
             from .symdict import SymDictHook
@@ -134,7 +135,10 @@ class Registry:
         return con
 
     def contract_for(self, qual, recv_cls=None):
-        cands = self.contracts.get(qual, [])
+        cands = [c for c in self.contracts.get(qual, []) if getattr(c, 'only_in', None) in (None, self.context)]
+        for c in cands:                         # oracles written for the function under verification come first
+            if self.context is not None and getattr(c, 'only_in', None) == self.context:
+                return c
         if recv_cls is not None:
             for c in cands:                     # a receiver-specific contract takes precedence
                 if c.receiver is not None and recv_cls in _as_tuple(c.receiver):
